@@ -456,6 +456,7 @@ PROPS = {
         "parts": [
             {"engine": "clonersim", "cfgs": ["", "nowire"], "share": 1, "chunk": 3000},
             {"engine": "sysim", "cfgs": ["", "servers", "sequential", "servers"], "share": 2, "chunk": 300},
+            {"engine": "wire", "instrument": WIRE_INSTRUMENT, "cfgs": [""], "modreplace": WIRE_MODREPLACE, "share": 1, "chunk": 100},
         ],
         "det_trace": False,
         "quick": {"seconds": 30, "chunk": 3000, "runs": 200000},
@@ -469,14 +470,17 @@ PROPS = {
                  "rewritten, shared cacheable and unique names; A/AAAA/HTTPS/TXT; CHAOS debug queries) through one full stack with the "
                  "production cloner as cloner and disposer and the ECS cache, the upstream holding requests for 0-50ms of simulated "
                  "time and answering with wire-unpacked messages; every response is compared with the same request served alone in a "
-                 "freshly built stack; every run non-trivial; distinct = distinct decision hash"),
+                 "freshly built stack.  wire part: the real servers of every transport (plain DNS, DoT, DoH over HTTP/1.1, 2 and 3 "
+                 "with wire and JSON formats, DoQ) with a disposer that overwrites every response a server has finished with, as the "
+                 "cloner's pools will; 4-24 queries sent concurrently over every transport with a handler that takes 0-900 ms; every "
+                 "response must be the pipeline function's answer to its own query; every run non-trivial; distinct = distinct decision hash"),
         "assumptions": [
             "in the sysim part the interleaving of the streams is produced by simulated upstream delays and the Go scheduler; every random choice is private to a stream, so decisions replay while goroutine order may differ",
             "TTLs of resolved answers may be smaller than in the reference (aged in the cache), never larger; filtered answers must carry the requester's own TTL",
             "request IDs and elapsed times inside CHAOS debug records are not compared",
         ],
         "components": {
-            "real": ["internal/dnsmsg Cloner (message, HTTPS/SVCB, OPT cloners, Dispose)", "dnssvc.NewHandlers stack with pooled request and filtering contexts, ecscache, real profiledb and device finder (sysim part)"],
+            "real": ["internal/dnsmsg Cloner (message, HTTPS/SVCB, OPT cloners, Dispose)", "dnssvc.NewHandlers stack with pooled request and filtering contexts, ecscache, real profiledb and device finder (sysim part)", "wire part: internal/dnsserver servers of every transport and their use of the Disposer (serverbase.go)"],
             "stub": ["filter (verdict by name prefix, builds rewritten answers with the requester's constructor)", "upstream (answers from the wire, random simulated delay)", "transports (requests injected, response released to the cloner after write as the plain-DNS servers do)"],
             "sim": "clock: testing/synctest; private generators per stream",
         },
